@@ -285,6 +285,78 @@ class CFG:
         self._dom = dom
         return dom
 
+    def reaching_defs(self) -> dict["N", dict[str, frozenset]]:
+        """IN sets of a reaching-definitions analysis over local names: for every CFG node, name ->
+        the set of definitions that may reach it.  A definition is the ast.Assign / ast.AnnAssign
+        statement (simple `x = e`) or the marker "opaque" (loop targets, augmented assignments,
+        walrus / with / except bindings, tuple targets, parameters)."""
+        cached = getattr(self, "_rd", None)
+        if cached is not None:
+            return cached
+
+        def gen(n: N) -> dict[str, object]:
+            out: dict[str, object] = {}
+            x = n.node
+            if n.kind == "stmt" and isinstance(x, ast.Assign):
+                for t in x.targets:
+                    if isinstance(t, ast.Name):
+                        out[t.id] = x if len(x.targets) == 1 else "opaque"
+                    else:
+                        for y in ast.walk(t):
+                            if isinstance(y, ast.Name) and isinstance(y.ctx, ast.Store):
+                                out[y.id] = "opaque"
+            elif n.kind == "stmt" and isinstance(x, ast.AnnAssign) and x.value is not None and isinstance(x.target, ast.Name):
+                out[x.target.id] = x
+            elif n.kind == "stmt" and isinstance(x, ast.AugAssign):
+                for y in ast.walk(x.target):
+                    if isinstance(y, ast.Name):
+                        out[y.id] = "opaque"
+            elif n.kind == "for-next" and isinstance(x, (ast.For, ast.AsyncFor)):
+                for y in ast.walk(x.target):
+                    if isinstance(y, ast.Name):
+                        out[y.id] = "opaque"
+            elif n.kind == "handler" and isinstance(x, ast.ExceptHandler) and x.name:
+                out[x.name] = "opaque"
+            elif n.kind == "stmt" and isinstance(x, (ast.With, ast.AsyncWith)):
+                for it in x.items:
+                    if it.optional_vars is not None:
+                        for y in ast.walk(it.optional_vars):
+                            if isinstance(y, ast.Name):
+                                out[y.id] = "opaque"
+            if isinstance(x, ast.AST) and not isinstance(x, (ast.FunctionDef, ast.AsyncFunctionDef, ast.ClassDef, ast.For, ast.AsyncFor, ast.With, ast.AsyncWith, ast.ExceptHandler)):
+                for y in ast.walk(x):
+                    if isinstance(y, ast.NamedExpr) and isinstance(y.target, ast.Name) and n.kind in ("stmt", "cond"):
+                        out[y.target.id] = "opaque"
+            return out
+
+        gens = {n: gen(n) for n in self.nodes}
+        IN: dict[N, dict[str, frozenset]] = {n: {} for n in self.nodes}
+        OUT: dict[N, dict[str, frozenset]] = {n: {} for n in self.nodes}
+        args = getattr(self.fn, "args", None)
+        if args is not None:
+            OUT[self.entry] = {a.arg: frozenset(["opaque"]) for a in [*args.posonlyargs, *args.args, *args.kwonlyargs, *([args.vararg] if args.vararg else []), *([args.kwarg] if args.kwarg else [])]}
+        work = list(self.nodes)
+        while work:
+            n = work.pop(0)
+            if n is not self.entry:
+                new_in: dict[str, frozenset] = {}
+                for p in n.pred:
+                    for k, vs in OUT[p].items():
+                        new_in[k] = new_in.get(k, frozenset()) | vs
+                IN[n] = new_in
+                out = dict(new_in)
+                for k, d in gens[n].items():
+                    out[k] = frozenset([d])
+            else:
+                out = OUT[self.entry]
+            if out != OUT[n]:
+                OUT[n] = out
+                for s_ in n.succ:
+                    if s_ not in work:
+                        work.append(s_)
+        self._rd = IN
+        return IN
+
     def node_for(self, node: ast.AST) -> N | None:
         """CFG node in which the given AST node is evaluated."""
         cur: ast.AST | None = node
@@ -313,6 +385,9 @@ class CFG:
             for d in self.dominators()[n]:
                 if d.kind in ("T", "F") and d is not n and isinstance(d.node, ast.expr):
                     out.append((d.node, d.kind == "T"))
+            for d in self.dominators()[n]:
+                if d.kind == "for-next" and isinstance(d.node, (ast.For, ast.AsyncFor)) and _inside(node, d.node.body):
+                    out += range_facts(d.node)
         out += expr_guards(node, stop=self._stop_for(node))
         return out
 
@@ -369,6 +444,48 @@ class CFG:
                     seen.add(s)
                     st.append(s)
         return False
+
+
+def _inside(node: ast.AST, body: list[ast.stmt]) -> bool:
+    cur: ast.AST | None = node
+    while cur is not None:
+        if any(cur is b for b in body):
+            return True
+        cur = parent_of(cur)
+    return False
+
+
+def range_facts(loop: ast.For) -> list[tuple[ast.expr, bool]]:
+    """Inside the body of `for v in range(lo, hi[, +-c])` (v not re-bound in the body):
+    lo <= v < hi, resp. hi < v <= lo - what the test of the equivalent `while` loop says."""
+    it = loop.iter
+    if not (isinstance(loop.target, ast.Name) and isinstance(it, ast.Call) and isinstance(it.func, ast.Name) and it.func.id == "range" and not it.keywords and 1 <= len(it.args) <= 3):
+        return []
+    v = loop.target.id
+    for b in loop.body:
+        for x in ast.walk(b):
+            if isinstance(x, ast.Name) and x.id == v and isinstance(x.ctx, (ast.Store, ast.Del)):
+                return []
+    a = it.args
+    lo: ast.expr = ast.Constant(value=0) if len(a) == 1 else a[0]
+    hi: ast.expr = a[0] if len(a) == 1 else a[1]
+    step = 1
+    if len(a) == 3:
+        st = a[2]
+        if isinstance(st, ast.UnaryOp) and isinstance(st.op, ast.USub) and isinstance(st.operand, ast.Constant) and isinstance(st.operand.value, int):
+            step = -st.operand.value
+        elif isinstance(st, ast.Constant) and isinstance(st.value, int):
+            step = st.value
+        else:
+            return []
+    if step == 0:
+        return []
+    name = ast.Name(id=v, ctx=ast.Load())
+    if step > 0:
+        facts = [ast.Compare(left=lo, ops=[ast.LtE()], comparators=[name]), ast.Compare(left=name, ops=[ast.Lt()], comparators=[hi])]
+    else:
+        facts = [ast.Compare(left=name, ops=[ast.LtE()], comparators=[lo]), ast.Compare(left=hi, ops=[ast.Lt()], comparators=[name])]
+    return [(ast.fix_missing_locations(ast.copy_location(f, loop)), True) for f in facts]
 
 
 def _assigns_name(stmt: ast.AST, name: str) -> bool | None:
